@@ -562,8 +562,8 @@ def compare(case, impl, model):
 
 
 def finding_of(case, impl, why, model=None):
-    """Known findings, matched by their witness shape only. F17c: the copy does not end, a mount point lies above
-    the output path and the container's view has a link cycle. F17a / F17b:
+    """Known findings F17a / F17b, matched by their witness shape only (F17c - a link cycle through a collection
+    mounted above the output path was followed forever - is fixed by /repo f009595; `diverge` is always a violation):
       a  a followed link whose target is an absolute path that is not path-cleaned (a component "", "." or "..");
       b  a followed link whose target path passes through a symlinked directory (the container's resolution of the
          target meets a symbolic link before its last component).
@@ -578,9 +578,6 @@ def finding_of(case, impl, why, model=None):
     v = view_of(case)
     if v is None:
         return None
-    if impl == "diverge":
-        # F17c: a mount above the output path and a link cycle through it (the container's view is infinite)
-        return "F17c" if mount_above(parse_case(case)) and v.cycle and (model is None or model == "diverge") else None
     if not v.irregular:
         return None
     if impl.startswith("ok "):
